@@ -30,6 +30,9 @@ var reIdent = regexp.MustCompile(`\b[a-zA-Z_][a-zA-Z0-9_]*\b`)
 
 // probeShape extracts the start and step expressions of the probe loop in fn.
 func probeShape(fn *Func) (start, step, tryInit, tryPost string, loop *ast.ForStmt) {
+	defer func() {
+		start, step = unrecv(fn, start), unrecv(fn, step)
+	}()
 	ast.Inspect(fn.Body, func(n ast.Node) bool {
 		f, ok := n.(*ast.ForStmt)
 		if !ok || f.Cond != nil || f.Init == nil || f.Post == nil {
@@ -128,7 +131,7 @@ func c09r1(c *RC) {
 		var thr, mask, capA string
 		ast.Inspect(mk.Body, func(n ast.Node) bool {
 			if a, ok := n.(*ast.AssignStmt); ok && len(a.Lhs) == 1 {
-				switch expr(a.Lhs[0]) {
+				switch unrecv(mk, expr(a.Lhs[0])) {
 				case "c.threshold":
 					thr = strings.ReplaceAll(expr(a.Rhs[0]), " ", "")
 				case "c.mask":
@@ -194,7 +197,7 @@ func c09r1(c *RC) {
 	var grow *ast.CallExpr
 	ast.Inspect(added.Body, func(n ast.Node) bool {
 		if a, ok := n.(*ast.AssignStmt); ok && len(a.Rhs) == 1 {
-			t := strings.ReplaceAll(expr(a.Rhs[0]), " ", "")
+			t := unrecv(added, strings.ReplaceAll(expr(a.Rhs[0]), " ", ""))
 			if t == "c.cap*2" || t == "2*c.cap" || t == "c.cap<<1" {
 				dbl = true
 			}
@@ -209,7 +212,7 @@ func c09r1(c *RC) {
 	trig := false
 	ast.Inspect(added.Body, func(n ast.Node) bool {
 		if ifs, ok := n.(*ast.IfStmt); ok {
-			t := strings.ReplaceAll(expr(ifs.Cond), " ", "")
+			t := unrecv(added, strings.ReplaceAll(expr(ifs.Cond), " ", ""))
 			if t == "c.len<=c.threshold" || t == "c.threshold>=c.len" {
 				for _, st := range ifs.Body.List {
 					if _, ok := st.(*ast.ReturnStmt); ok {
@@ -507,7 +510,7 @@ func c09r7(c *RC) {
 		c.Fail(comb.QName()+"|probe-arms", pr.Pos(loop.Pos()), "the probe loop body is no longer an if/else-if/else chain")
 		return
 	}
-	emptyCond := strings.ReplaceAll(expr(chain.Cond), " ", "")
+	emptyCond := unrecv(comb, strings.ReplaceAll(expr(chain.Cond), " ", ""))
 	idxVar := ""
 	if m := regexp.MustCompile(`^c\.hits\[(\w+)\]==0$`).FindStringSubmatch(emptyCond); m != nil {
 		idxVar = m[1]
@@ -518,7 +521,7 @@ func c09r7(c *RC) {
 	}
 	hasInc := func(list []ast.Stmt) bool {
 		for _, st := range list {
-			if inc, ok := st.(*ast.IncDecStmt); ok && inc.Tok == token.INC && strings.ReplaceAll(expr(inc.X), " ", "") == "c.hits["+idxVar+"]" {
+			if inc, ok := st.(*ast.IncDecStmt); ok && inc.Tok == token.INC && unrecv(comb, strings.ReplaceAll(expr(inc.X), " ", "")) == "c.hits["+idxVar+"]" {
 				return true
 			}
 		}
@@ -591,13 +594,27 @@ func c09r7(c *RC) {
 		return
 	}
 	carriesHits, copiesRow := false, false
+	// names of the old data/scratch/hits returned by c.make(...)
+	oldData, oldScratch, oldHits := "", "", ""
+	ast.Inspect(added.Body, func(n ast.Node) bool {
+		if a, ok := n.(*ast.AssignStmt); ok && len(a.Lhs) == 3 && len(a.Rhs) == 1 {
+			if k, ok := a.Rhs[0].(*ast.CallExpr); ok && added.Pkg.CalleeName(k) == "exec.(*combiningFrame).make" {
+				oldData, oldScratch, oldHits = expr(a.Lhs[0]), expr(a.Lhs[1]), expr(a.Lhs[2])
+			}
+		}
+		return true
+	})
 	for _, st := range ch2.Body.List {
-		if a, ok := st.(*ast.AssignStmt); ok && len(a.Lhs) == 1 && strings.HasPrefix(strings.ReplaceAll(expr(a.Lhs[0]), " ", ""), "c.hits[") && strings.Contains(expr(a.Rhs[0]), "hits0[") {
-			carriesHits = true
+		if a, ok := st.(*ast.AssignStmt); ok && len(a.Lhs) == 1 && strings.HasPrefix(unrecv(added, strings.ReplaceAll(expr(a.Lhs[0]), " ", "")), "c.hits[") {
+			// the right-hand side reads the old table's hit count: an index into the
+			// third result of the make call (the old hits)
+			if ix, ok := a.Rhs[0].(*ast.IndexExpr); ok && expr(ix.X) == oldHits && oldHits != "" {
+				carriesHits = true
+			}
 		}
 	}
 	for _, call := range callsIn(ch2.Body) {
-		if added.Pkg.CalleeName(call) == "frame.Copy" && len(call.Args) == 2 && strings.Contains(expr(call.Args[0]), "c.data") && strings.Contains(expr(call.Args[1]), "data0") {
+		if added.Pkg.CalleeName(call) == "frame.Copy" && len(call.Args) == 2 && strings.Contains(unrecv(added, expr(call.Args[0])), "c.data") && oldData != "" && strings.HasPrefix(expr(call.Args[1]), oldData+".") {
 			copiesRow = true
 		}
 	}
@@ -606,7 +623,7 @@ func c09r7(c *RC) {
 	// the scratch area is carried over too (rows being combined live there)
 	scr := false
 	for _, call := range callsIn(added.Body) {
-		if added.Pkg.CalleeName(call) == "frame.Copy" && len(call.Args) == 2 && strings.Contains(expr(call.Args[0]), "scratch") && strings.Contains(expr(call.Args[1]), "scratch0") {
+		if added.Pkg.CalleeName(call) == "frame.Copy" && len(call.Args) == 2 && unrecv(added, expr(call.Args[0])) == "c.scratch" && expr(call.Args[1]) == oldScratch && oldScratch != "" {
 			scr = true
 		}
 	}
@@ -614,5 +631,15 @@ func c09r7(c *RC) {
 }
 
 func replaceWord(s, word, with string) string {
-	return regexp.MustCompile(`\b`+regexp.QuoteMeta(word)+`\b`).ReplaceAllString(s, with)
+	return regexp.MustCompile(`\b`+regexp.QuoteMeta(word)+`\b`).ReplaceAllLiteralString(s, with)
+}
+
+// unrecv rewrites "<recv>." prefixes of an expression string to "c." so that
+// templates written for receiver c hold under any receiver name.
+func unrecv(fn *Func, t string) string {
+	r := recvOf(fn)
+	if r == "" || r == "c" {
+		return t
+	}
+	return replaceWord(t, r, "c")
 }
